@@ -471,7 +471,10 @@ impl<'a> Tr<'a> {
             Expr::Field(f) => {
                 let bt = self.place_type(&f.base)?;
                 match (self.sub.shallow(&bt), &f.member) {
-                    (Ty::Adt(n), m) => Ok(self.field_of(&n, m, e.span())?.1),
+                    (Ty::Adt(n, targs), m) => {
+                        let fty = self.field_of(&n, m, e.span())?.1;
+                        Ok(subst_params(&fty, &self.adt_subst(&n, &targs)))
+                    }
                     (Ty::Tuple(ts), syn::Member::Unnamed(ix)) => Ok(ts[ix.index as usize].clone()),
                     (t, _) => self.err(e.span(), &format!("field assignment on {}", t)),
                 }
@@ -513,7 +516,7 @@ impl<'a> Tr<'a> {
                 lines.extend(base.pre);
                 let bt = self.sub.shallow(&base.ty);
                 match (&bt, &f.member) {
-                    (Ty::Adt(n), m) => {
+                    (Ty::Adt(n, _), m) => {
                         let (fname, _) = self.field_of(n, m, place.span())?;
                         let tyasc = self.ph("lty", &[&base.ty]);
                         self.assign_place(&f.base, format!("({{ {} with {} := {} }} : {})", base.term, fname, v, tyasc), false, lines)
@@ -846,12 +849,44 @@ impl<'a> Tr<'a> {
             }
             fn visit_item(&mut self, _: &'ast syn::Item) {}
         }
+        // labels of `break 'l` / `continue 'l` that leave this loop: the target frame's state is handed back by name
+        struct L(Vec<String>);
+        impl<'ast> syn::visit::Visit<'ast> for L {
+            fn visit_expr_break(&mut self, b: &'ast syn::ExprBreak) {
+                if let Some(l) = &b.label {
+                    self.0.push(l.ident.to_string());
+                }
+                syn::visit::visit_expr_break(self, b);
+            }
+            fn visit_expr_continue(&mut self, c: &'ast syn::ExprContinue) {
+                if let Some(l) = &c.label {
+                    self.0.push(l.ident.to_string());
+                }
+            }
+            fn visit_item(&mut self, _: &'ast syn::Item) {}
+        }
         let mut v = V(Vec::new());
+        let mut l = L(Vec::new());
         match kind {
-            LoopKind::Loop(b) => syn::visit::Visit::visit_block(&mut v, b),
+            LoopKind::Loop(b) => {
+                syn::visit::Visit::visit_block(&mut v, b);
+                syn::visit::Visit::visit_block(&mut l, b);
+            }
             LoopKind::While(c, b) => {
                 syn::visit::Visit::visit_expr(&mut v, c);
                 syn::visit::Visit::visit_block(&mut v, b);
+                syn::visit::Visit::visit_block(&mut l, b);
+            }
+        }
+        for fr in &self.frames {
+            if let Some(lab) = &fr.label {
+                if l.0.contains(lab) {
+                    for sv in &fr.state {
+                        if !v.0.contains(sv) {
+                            v.0.push(sv.clone());
+                        }
+                    }
+                }
             }
         }
         v.0.into_iter().filter(|n| self.lookup(n).is_some() && !state.contains(n)).collect()
